@@ -18,13 +18,14 @@ EXPLANATION = (
     'them). These are necessary conditions of the history property; the interleaving/timing clauses are not decided.'
     ' Added later: R3 also demands that any entry condition of the drain other than `is_connected` (a re-entrancy flag) is released on every exit, cancellation included; R7 (C07.R9 re-used): while is_connected holds a writer is stored at every suspension point, so a popped message always finds a stream.'
     ' Rounds 7-8: R4 also: no timer (asyncio.timeout / wait_for) around the write - only the stream reports a failed write; R5 also: every accepted message is enqueued and every entry that passes the capacity test is appended (no de-duplication or shortcut); R8 the bytes handed to the stream are owned by their frame (C05.R7 aliasing clauses re-used).'
+    ' Rounds 9-10: R10 (C16.R1/R2 re-used): a held message leaves the queue only by being written, by its own expiry or by the explicit overflow error (the purge deletes exactly the expired entries, the deque has no maxlen); R11 an encoding error does not end the flush (D15); R12 the connection is re-tested before every popleft(), from the start of the drain and after every suspension inside it (D16).'
 )
 ASSUMPTIONS = [
     "asyncio runs a task without interleaving between two awaits (cooperative scheduling)",
     "collections.deque append/appendleft/popleft have their documented end-of-queue semantics",
     "StreamWriter.write buffers bytes in call order",
 ]
-FLOORS = {"C01.R1": 7, "C01.R2": 5, "C01.R3": 4, "C01.R4": 4, "C01.R5": 2, "C01.R6": 2, "C01.R7": 1, "C01.R8": 1, "C01.R9": 1, "C01.R10": 1, "C01.R11": 1}
+FLOORS = {"C01.R1": 7, "C01.R2": 5, "C01.R3": 4, "C01.R4": 4, "C01.R5": 2, "C01.R6": 2, "C01.R7": 1, "C01.R8": 1, "C01.R9": 1, "C01.R10": 1, "C01.R11": 1, "C01.R12": 1}
 
 QUEUE_READ_OK = {"len", "bool", "reversed", "list", "tuple", "iter", "enumerate"}
 MUTATORS = {"append", "appendleft", "pop", "popleft", "insert", "extend", "extendleft", "clear", "rotate", "remove", "reverse", "sort", "__setitem__", "__delitem__"}
@@ -43,6 +44,7 @@ def run(ctx):
     r5(ctx)
     r6(ctx)
     r11(ctx)
+    r12(ctx)
     from . import c07
     from .common import reuse
 
@@ -275,6 +277,25 @@ def r11(ctx):
     for h in hs:
         ok = bool(again) and g.all_paths_pass(h.id, [g.exit.id], again, NONEXC)
         ctx.check(ok, R, "_drain_message_queue:encoding-error-does-not-end-the-flush", m, h.ast, "after an encoding error the rest of the queue is still flushed (the handler leads back to the loop or awaits a further drain)", "the handler falls out of the function: messages queued behind the unencodable one wait for the next send() or reconnect, and expire unsent if there is none")
+
+
+def r12(ctx):
+    """D16: a held message is taken out of the queue only while the connection it is to be written to still stands.  Between a
+    suspension inside the flush (the awaited write: another task may reset the connection meanwhile, and a drain() paused by flow
+    control returns normally on a local close) and the next popleft() the connection state is tested again; otherwise the popped
+    message meets `_write` without a writer and is dropped as "unencodable" instead of waiting for the new connection."""
+    R = "C01.R12"
+    drain = sock_fn(ctx, "_drain_message_queue")
+    m, g = drain.module, drain.cfg
+    pops = [n for n, c in drain.calls("_message_queue.popleft")]
+    ctx.require(pops, "socket._drain_message_queue: no popleft()")
+    gates = [drain.branch(t, "true").id for t in drain.tests(lambda e: dotted(e) == "self.is_connected")]
+    for t, present in drain.presence("self._writer"):
+        gates.append(drain.branch(t, present).id)
+    susp = [n for n in g.nodes if n.awaits and any(g.exists_path(n.id, p.id, labels=NONEXC) for p in pops)]
+    bad = next(((a, p) for a in susp for p in pops if g.exists_path(a.id, p.id, avoid=set(gates), labels=NONEXC)), None)
+    entry_ok = all(not g.exists_path(g.entry.id, p.id, avoid=set(gates), labels=NONEXC) for p in pops)
+    ctx.check(bad is None and entry_ok and bool(gates), R, "_drain_message_queue:connection-retested-before-every-pop", m, pops[0].ast, "every way to popleft() - from the start of the drain and from each suspension inside it - passes a successful test of self.is_connected", (f"after `{norm_text(bad[0].ast)[:50]}` (line {bad[0].lineno}) the next message is popped without looking at the connection again" if bad else "the first pop is not guarded by the connection state"))
 
 
 def r3(ctx):
